@@ -55,6 +55,13 @@ TEXTS = ["hello", " ", "x > y", "é", "日本", "😀", ")", "(", ",", ".", ":",
 def gen_items(rng, targets, depth=0, allow_ref=True, in_arg=False):
     """source items: ("T", s) ("V", name) ("C", name, kids) ("R", ns, path, [(k, ("S", items) | ("L", lit))])"""
     items = []
+    if depth <= 1 and rng.random() < 0.07:
+        # defined-but-empty: "" as a value, as the children of a component, as an argument string; a value made only
+        # of a reference to such a key is defined too (seeded change C03e treated it as undefined)
+        return items
+    if depth == 0 and allow_ref and targets and rng.random() < 0.08:
+        ns, path = rng.choice(targets)
+        return [("R", ns, path, [])]
     for _ in range(rng.randint(1, 3)):
         r = rng.random()
         if r < 0.35:
